@@ -14,3 +14,100 @@ __builtin_ia32_pmovmskb128(v16qi_t a)
     }
     return m;
 }
+
+/* ---- SSE2 integer builtins used by poly1305_sse2.c (Intel SDM semantics) ---- */
+typedef int       v4si_t __attribute__((vector_size(16)));
+typedef long long v2di_t __attribute__((vector_size(16)));
+
+v4si_t
+__builtin_ia32_pshufd(v4si_t a, int imm)
+{
+    v4si_t r;
+    r[0] = a[imm & 3];
+    r[1] = a[(imm >> 2) & 3];
+    r[2] = a[(imm >> 4) & 3];
+    r[3] = a[(imm >> 6) & 3];
+    return r;
+}
+
+v4si_t
+__builtin_ia32_punpckldq128(v4si_t a, v4si_t b)
+{
+    v4si_t r;
+    r[0] = a[0]; r[1] = b[0]; r[2] = a[1]; r[3] = b[1];
+    return r;
+}
+
+v4si_t
+__builtin_ia32_punpckhdq128(v4si_t a, v4si_t b)
+{
+    v4si_t r;
+    r[0] = a[2]; r[1] = b[2]; r[2] = a[3]; r[3] = b[3];
+    return r;
+}
+
+v2di_t
+__builtin_ia32_punpcklqdq128(v2di_t a, v2di_t b)
+{
+    v2di_t r;
+    r[0] = a[0]; r[1] = b[0];
+    return r;
+}
+
+v2di_t
+__builtin_ia32_punpckhqdq128(v2di_t a, v2di_t b)
+{
+    v2di_t r;
+    r[0] = a[1]; r[1] = b[1];
+    return r;
+}
+
+v2di_t
+__builtin_ia32_pmuludq128(v4si_t a, v4si_t b)
+{
+    v2di_t r;
+    r[0] = (long long) ((uint64_t) (uint32_t) a[0] * (uint64_t) (uint32_t) b[0]);
+    r[1] = (long long) ((uint64_t) (uint32_t) a[2] * (uint64_t) (uint32_t) b[2]);
+    return r;
+}
+
+v2di_t
+__builtin_ia32_psrlqi128(v2di_t a, int n)
+{
+    v2di_t r;
+    r[0] = n > 63 ? 0 : (long long) ((uint64_t) a[0] >> n);
+    r[1] = n > 63 ? 0 : (long long) ((uint64_t) a[1] >> n);
+    return r;
+}
+
+v2di_t
+__builtin_ia32_psllqi128(v2di_t a, int n)
+{
+    v2di_t r;
+    r[0] = n > 63 ? 0 : (long long) ((uint64_t) a[0] << n);
+    r[1] = n > 63 ? 0 : (long long) ((uint64_t) a[1] << n);
+    return r;
+}
+
+v2di_t
+__builtin_ia32_psrldqi128(v2di_t a, int nbits)
+{
+    /* byte shift right of the whole 128-bit value; the builtin takes the amount in bits */
+    unsigned __int128 v = ((unsigned __int128) (uint64_t) a[1] << 64) | (uint64_t) a[0];
+    v2di_t            r;
+    v = nbits > 127 ? 0 : v >> nbits;
+    r[0] = (long long) (uint64_t) v;
+    r[1] = (long long) (uint64_t) (v >> 64);
+    return r;
+}
+
+v2di_t
+__builtin_ia32_pslldqi128(v2di_t a, int nbits)
+{
+    unsigned __int128 v = ((unsigned __int128) (uint64_t) a[1] << 64) | (uint64_t) a[0];
+    v2di_t            r;
+    v = nbits > 127 ? 0 : v << nbits;
+    r[0] = (long long) (uint64_t) v;
+    r[1] = (long long) (uint64_t) (v >> 64);
+    return r;
+}
